@@ -71,6 +71,16 @@ def tmpl_find_platform(p, f, i):
              [] if f else ['fp%d/a.c' % i, 'fp%d/windows/w.c' % i, 'fp%d/linux/l.c' % i])
 
 
+def tmpl_find_nocache(p, f, i):
+    return T(["fn%d = find_files('fn%d/*.c', extra='*.h', cache=False%s)" % (i, i, d(f)),
+              "static_library('fnl%d', fn%d)" % (i, i),
+              "hn%d = header_directory('hn%d', include='*.h', extra='*.inc', cache=False%s)" % (i, i, d(f))],
+             {'fn%d/a.c' % i: 'int a;\n', 'fn%d/cfg.h' % i: '#define C\n', 'hn%d/p.h' % i: '#define P\n',
+              'hn%d/q.inc' % i: 'q\n'},
+             ['fn%d/a.c' % i, 'fn%d/cfg.h' % i, 'hn%d/p.h' % i, 'hn%d/q.inc' % i] if f else [],
+             [] if f else ['fn%d/a.c' % i, 'fn%d/cfg.h' % i, 'hn%d/p.h' % i, 'hn%d/q.inc' % i])
+
+
 def tmpl_extra_dist(p, f, i):
     return T(["extra_dist(files=['README%d'], dirs=['docs%d'])" % (i, i)],
              {'README%d' % i: 'r\n', 'docs%d/a.md' % i: 'a\n', 'docs%d/sub/b.md' % i: 'b\n'},
@@ -121,7 +131,8 @@ def tmpl_directory(p, f, i):
 
 
 TEMPLATES = [('exe', tmpl_exe), ('header', tmpl_header), ('header_directory', tmpl_hdrdir), ('find_files', tmpl_find),
-             ('find_platform', tmpl_find_platform), ('extra_dist', tmpl_extra_dist), ('man_page', tmpl_man),
+             ('find_platform', tmpl_find_platform), ('find_nocache', tmpl_find_nocache),
+             ('extra_dist', tmpl_extra_dist), ('man_page', tmpl_man),
              ('copy_file', tmpl_copy), ('build_step-cmd-file', tmpl_step), ('build_step-files', tmpl_step_files),
              ('extra_deps', tmpl_extra_deps), ('prebuilt_library', tmpl_prebuilt), ('directory', tmpl_directory)]
 TD = dict(TEMPLATES)
